@@ -250,3 +250,33 @@ PROPS['C20'] = dict(
     level_text='Proof for boolean and the integer family (C20_signed_accepts, C20_parse_uint_spec, C20_signed_canonical, C20_unsigned_canonical, C20_boolean, C20_boolean_accepts) over all strings and all values of the type; exploration with grammar and value oracles for the other datatypes.',
     level_note='Eight fixes made while building this check (xsd:long bit size, unsignedLong formatting, ParseFloat leniency, INF/NaN spelling, unchecked binaries, g* lexical forms, date/time leniency and dropped fractions, duration grammar). One known finding: fractional duration components, pinned by the repository\'s own test.',
 )
+
+_CANON_RULE = ('datasets of the symmetric shapes the property names: cycles (2-7), two cycles, cliques (2-4), disjoint copies of a chain, stars, paths, grids, self-referencing quads, blank nodes as graph names, random quads over 1-5 shared blank nodes, literals of every escaping class; a third of them with one node marked to break the symmetry partly; '
+               'each canonicalized as generated and in four isomorphic copies (fresh blank nodes created in shuffled order, quads shuffled): byte-equal outputs; one non-isomorphic neighbour (a predicate changed): different output; '
+               'on every run: lines sorted and unique, iterator lines = written document, issued identifiers one-to-one and exactly c14n0..c14n(k-1), every line equal to its original quad (by OriginalQuadIndex) serialised independently by the harness under GetBlankNodeIdentifier, output parses back to a dataset isomorphic to the input; '
+               'three quarters of the datasets with FNV-1a-64 substituted through SetHashFunc and compared byte for byte with the Gallina model of RDFC-1.0, one quarter with SHA-256')
+
+PROPS['C03'] = dict(
+    families=[dict(name='c03-canon', quick=1500, thorough=120000), dict(name='c04-vectors', quick=1, thorough=1)],
+    slice=25,
+    rule=_CANON_RULE + '; the 65 W3C rdf-canon vectors (SHA-256, SHA-384 for test075) byte-compared with the published results, the poison graphs must end in an error or a self-consistent answer',
+    trusted_base=['model/Canon.v: RDFC-1.0 4.4-4.8 as coded in rdfcanon/*.go, parametric in the hash; Go map iteration replaced by first-occurrence order; Heap permutation order of github.com/cespare/permute transcribed',
+                  'FNV-1a-64 written out in the model; SHA-256/384 are not modelled (the published W3C results are the oracle for them)'],
+    assumptions=['invariance under renaming and reordering (C03_iso_invariance_statement) is the correctness of RDFC-1.0 modulo hash collisions: stated, not proved; decided by isomorphic copies',
+                 'the model does not carry the context cancellation checks of the Go code'],
+    explanation='structure theorems for every hash function and dataset: sorted lines, lines = input quads under the issued map with exact original indexes, identifiers c14n0.. in issue order, one-to-one, total on the blank nodes; model = implementation byte for byte under a substituted hash; isomorphic-copy and W3C-vector oracles',
+    level_text='Proof (partial): C03_structure, C03_issued_injective, C03_outcomes over all hash functions and datasets; label/order invariance and non-isomorphic-differ by exploration over symmetric shapes and by the W3C vectors.',
+    level_note='Fix made while building this check: temporary issuer copies shared one label provider (F10), which made the result depend on permutation order.',
+)
+
+PROPS['C04'] = dict(
+    families=[dict(name='c04-vectors', quick=1, thorough=1), dict(name='c03-canon', quick=1500, thorough=120000)],
+    slice=25,
+    rule='the 65 W3C rdf-canon vectors: output byte-equal to the published canonical N-Quads (SHA-256; SHA-384 where the manifest says so); ' + _CANON_RULE,
+    trusted_base=['the published W3C results are the external definition for SHA-256/384; model/Canon.v is the definition for a substituted hash',
+                  'model/NQ.v write_literal / write_iri for the canonical escaping (tied to nquads.WriteLiteral/WriteIRI by K/C01)'],
+    assumptions=['where the specification leaves a choice (non-automorphic hash ties, a quad naming one blank node twice) the model takes the Go code\'s choice; none of the generated shapes reaches such a tie under 64-bit FNV or SHA-256'],
+    explanation='model = step-by-step RDFC-1.0; implementation = model byte for byte for a substituted hash; implementation = published results on the W3C vectors; theorems on structure and on the canonical escaping table',
+    level_text='Proof (partial): C04_structure_any_hash (any substituted hash), C04_literal_escaping (every code point is written in the class the canonical form assigns); byte equality with RDFC-1.0 by the W3C vectors and by the model correspondence (exploration).',
+    level_note='Fixes made while building this check: canonical escaping of control characters (F09), <<predicate>> in the related-hash input (F11), shared issuer provider (F10). After them all 64 positive W3C vectors match byte for byte.',
+)
